@@ -1,6 +1,170 @@
-(** C11 — pinned statements. *)
-From TU Require Import Base C11_Model C11_Proofs.
+(** C11 — pinned statements. Nothing but statements, [exact], and assumption audits.
+    [wf_seg seg = true] is the executable form of "no empty cluster and no cluster
+    mixes whitespace with non-whitespace" ([wf_seg_iff]); code-point mode is the
+    segmentation [singletons s], for which it always holds. *)
+From TU Require Import Base C11_Model C11_Proofs C11_Link.
+From TU Require C10_Model C10_Proofs.
 
-Theorem remove_is_concat_strip : forall seg, remove seg = concat (strip_cl seg).
-Proof. exact remove_def. Qed.
-Print Assumptions remove_is_concat_strip.
+(** ** hypotheses *)
+Theorem wf_seg_iff : forall seg,
+  wf_seg seg = true <-> Forall (fun c => c <> []) seg /\ NoMixed seg.
+Proof. exact wf_seg_spec. Qed.
+Print Assumptions wf_seg_iff.
+
+Theorem wf_seg_singletons : forall s, wf_seg (singletons s) = true /\ concat (singletons s) = s.
+Proof. exact (fun s => conj (wf_singletons s) (concat_singletons s)). Qed.
+Print Assumptions wf_seg_singletons.
+
+(** ** [words] is determined by these three facts (adequacy of the specification) *)
+Theorem words_word : forall w, w <> [] -> forallb nonws_cp w = true -> words w = [w].
+Proof. exact (wordsP_word is_ws). Qed.
+Print Assumptions words_word.
+
+Theorem words_allws : forall g, forallb is_ws g = true -> words g = [].
+Proof. exact (wordsP_allws is_ws). Qed.
+Print Assumptions words_allws.
+
+Theorem words_split : forall a c b, is_ws c = true -> words (a ++ c :: b) = words a ++ words b.
+Proof. exact (wordsP_split is_ws). Qed.
+Print Assumptions words_split.
+
+(** ** clean *)
+(** code-point mode, all strings: the words joined by single spaces *)
+Theorem clean_spec : forall s, clean (singletons s) = join [32%N] (words s).
+Proof. exact clean_spec_cp. Qed.
+Print Assumptions clean_spec.
+
+(** grapheme mode: every segmentation without empty or mixed clusters *)
+Theorem clean_spec_g : forall seg,
+  wf_seg seg = true -> clean seg = join [32%N] (words (concat seg)).
+Proof. exact clean_spec_seg. Qed.
+Print Assumptions clean_spec_g.
+
+(** no leading/trailing/consecutive whitespace, only U+0020 — and [cleansb]
+    says exactly "is its words joined by single spaces" *)
+Theorem clean_clean : forall seg, wf_seg seg = true -> cleansb (clean seg) = true.
+Proof. exact clean_clean_seg. Qed.
+Print Assumptions clean_clean.
+
+Theorem cleansb_meaning : forall s, cleansb s = true <-> s = join [32%N] (words s).
+Proof. exact cleansb_iff. Qed.
+Print Assumptions cleansb_meaning.
+
+(** ... which is C10's [Clean] for every segmentation of the cleaned text
+    without mixed clusters, hence the premise of C10's [ops_roundtrip] *)
+Theorem clean_clean_C10 : forall seg seg',
+  wf_seg seg = true -> concat seg' = clean seg -> wf_seg seg' = true -> C10_Proofs.Clean seg'.
+Proof. exact C11_Link.clean_Clean_seg. Qed.
+Print Assumptions clean_clean_C10.
+
+Theorem clean_clean_C10_cp : forall s, C10_Proofs.Clean (singletons (clean (singletons s))).
+Proof. exact C11_Link.clean_Clean_cp. Qed.
+Print Assumptions clean_clean_C10_cp.
+
+(** code-point mode: two texts equal modulo whitespace, both cleaned, round-trip
+    through C10's operations/repair *)
+Theorem clean_pair_roundtrip : forall a b,
+  strip_cps a = strip_cps b ->
+  let f := singletons (clean (singletons a)) in
+  exists ops, C10_Model.operations f (singletons (clean (singletons b))) = Some ops
+              /\ length ops = length f
+              /\ C10_Model.repair f ops = Some (clean (singletons b)).
+Proof. exact C11_Link.clean_pair_roundtrip_cp. Qed.
+Print Assumptions clean_pair_roundtrip.
+
+(** idempotence: code-point mode for all strings; grapheme mode for every
+    segmentation [seg'] of the cleaned text without mixed clusters (the real
+    segmenter can violate that hypothesis: known finding KF1 for C11) *)
+Theorem clean_idem : forall s, clean (singletons (clean (singletons s))) = clean (singletons s).
+Proof. exact clean_idem_cp. Qed.
+Print Assumptions clean_idem.
+
+Theorem clean_idem_g : forall seg seg',
+  wf_seg seg = true -> concat seg' = clean seg -> wf_seg seg' = true -> clean seg' = clean seg.
+Proof. exact clean_idem_seg. Qed.
+Print Assumptions clean_idem_g.
+
+Theorem clean_fixpoints : forall s, clean (singletons s) = s <-> cleansb s = true.
+Proof. exact clean_fix_iff. Qed.
+Print Assumptions clean_fixpoints.
+
+(** the non-whitespace code points survive in order — for EVERY segmentation,
+    mixed clusters included *)
+Theorem clean_nonws : forall seg, strip_cps (clean seg) = strip_cps (concat seg).
+Proof. exact clean_nonws_seg. Qed.
+Print Assumptions clean_nonws.
+
+(** ** word_boundaries: for every segmentation the ranges are, in order, exactly
+    the maximal whitespace-free runs of characters *)
+Theorem wb_spec : forall seg,
+  let wbs := word_boundaries seg in
+  map (sub seg) wbs = words_cl seg /\ incr 0 true (length seg) wbs /\ tile 0 seg wbs = true.
+Proof. exact (fun seg => conj (wb_words_cl seg) (conj (wb_incr seg) (tile_model seg))). Qed.
+Print Assumptions wb_spec.
+
+(** the checker [tile] accepts nothing but the word ranges *)
+Theorem tile_only_words : forall seg wbs, tile 0 seg wbs = true -> map (sub seg) wbs = words_cl seg.
+Proof. exact (fun seg wbs => tile_sound seg wbs 0). Qed.
+Print Assumptions tile_only_words.
+
+(** without mixed clusters the character ranges spell the code-point words *)
+Theorem wb_words : forall seg,
+  wf_seg seg = true ->
+  map (fun r => concat (sub seg r)) (word_boundaries seg) = words (concat seg).
+Proof. exact wb_words_cp. Qed.
+Print Assumptions wb_words.
+
+(** ** remove / full *)
+Theorem remove_spec : forall s, remove (singletons s) = strip_cps s.
+Proof. exact remove_spec_cp. Qed.
+Print Assumptions remove_spec.
+
+Theorem remove_spec_g : forall seg, wf_seg seg = true -> remove seg = strip_cps (concat seg).
+Proof. exact remove_spec_seg. Qed.
+Print Assumptions remove_spec_g.
+
+Theorem full_spec : forall s, full (singletons s) = join [32%N] (singletons (strip_cps s)).
+Proof. exact full_spec_cp. Qed.
+Print Assumptions full_spec.
+
+(** grapheme mode: the remaining characters (clusters) separated by single
+    spaces; together they spell [remove] *)
+Theorem full_spec_g : forall seg,
+  full seg = join [32%N] (strip_cl seg) /\ concat (strip_cl seg) = remove seg.
+Proof. exact (fun seg => conj (full_def seg) (strip_cl_concat seg)). Qed.
+Print Assumptions full_spec_g.
+
+(** ** the executable statement *)
+Theorem check_run : forall v, wf_input v -> check_C11 v (run_C11 v) = true.
+Proof. exact check_run_l. Qed.
+Print Assumptions check_run.
+
+Theorem check_sound : forall v out,
+  check_C11 v out = true -> wf_seg (in_seg v) = true ->
+  let seg := in_seg v in
+  let c := v_list v_n (v_nth 0 out) in
+  c = join [32%N] (words (concat seg)) /\ cleansb c = true /\
+  strip_cps c = strip_cps (concat seg) /\
+  v_opt (v_list v_n) (v_nth 4 out) = Some c /\
+  map (sub seg) (v_list v_pair (v_nth 1 out)) = words_cl seg /\
+  v_list v_n (v_nth 2 out) = strip_cps (concat seg) /\
+  v_list v_n (v_nth 3 out) = join [32%N] (strip_cl seg).
+Proof. exact check_sound_l. Qed.
+Print Assumptions check_sound.
+
+(** ** non-vacuity *)
+(** a grapheme segmentation with CRLF and a combining sequence: "a\r\n e\u{301}" *)
+Example wf_seg_witness : wf_seg [[97];[13;10];[32];[101;769]]%N = true.
+Proof. vm_compute. reflexivity. Qed.
+(** its cleaned text "a e\u{301}" segmented as (a)( )(e\u{301}) is a well-formed oracle *)
+Example wf_input_witness :
+  wf_input (L [I 1; L [L [I 97]; L [I 13; I 10]; L [I 32]; L [I 101; I 769]];
+               L [L [I 97]; L [I 32]; L [I 101; I 769]]])%Z.
+Proof. intros _ _. vm_compute. split; reflexivity. Qed.
+(** the KF1 seam: the real segmentation (a)( \u{301}) of clean "a\n\u{301}" is mixed *)
+Example seam_not_wf : wf_seg [[97];[32;769]]%N = false.
+Proof. vm_compute. reflexivity. Qed.
+Example clean_example :
+  clean (singletons [32;32;116;9;32;105;10]%N) = [116;32;105]%N
+  /\ word_boundaries (singletons [32;32;116;9;32;105;10]%N) = [(2,3);(5,6)]%nat.
+Proof. vm_compute. split; reflexivity. Qed.
